@@ -119,6 +119,167 @@ def _param_never_holds_error(crate, fn, t):
     return sites > 0
 
 
+def _split_args(ty):
+    """`A<B, C<D>>` -> ("A", ["B", "C<D>"])."""
+    i = ty.find("<")
+    if i < 0 or not ty.endswith(">"):
+        return ty, []
+    out, depth, cur = [], 0, ""
+    for ch in ty[i + 1:-1]:
+        if ch == "," and depth == 0:
+            out.append(cur.strip())
+            cur = ""
+            continue
+        depth += ch in "<(["
+        depth -= ch in ">)]"
+        cur += ch
+    if cur.strip():
+        out.append(cur.strip())
+    return ty[:i], out
+
+
+def _residual_ty(ty, known, prefix=()):
+    """The type of what a value of type `ty` can still own, given the variants established for it and for the places
+    below it (`known`: projection path -> variant name); Option and Result only, anything else is kept whole."""
+    head, args = _split_args(ty)
+    v = known.get(prefix)
+    if head == "std::option::Option" and len(args) == 1:
+        if v == "None":
+            return ""
+        if v == "Some":
+            return _residual_ty(args[0], known, prefix + ("Some",))
+    if head == "std::result::Result" and len(args) == 2:
+        if v == "Ok":
+            return _residual_ty(args[0], known, prefix + ("Ok",))
+        if v == "Err":
+            return _residual_ty(args[1], known, prefix + ("Err",))
+    return ty
+
+
+def _drop_cannot_hold_error(crate, fn, dblock, markers):
+    """The drop (of a whole local, behind a drop flag) is reached only on paths on which the value is known - from the
+    discriminant switches taken - to be in a variant without an error inside, or has been moved out (flag cleared).
+    Paths are followed through the function with the drop flags and the established variants as state."""
+    t = fn.blocks[dblock]["term"]
+    pl = t.get("place") or {}
+    if pl.get("p"):
+        return False
+    L = pl["l"]
+    ty = t["ty"]
+    flags = set()
+    for b in fn.blocks:
+        for st in b["stmts"]:
+            if st["k"] == "assign" and not st["place"]["p"] and st["rv"]["k"] == "use" and \
+                    st["rv"]["op"].get("c") == "const" and st["rv"]["op"].get("ty") == "bool":
+                flags.add(st["place"]["l"])
+    for b in fn.blocks:
+        if b.get("cleanup"):
+            continue
+        for st in b["stmts"]:
+            if st["k"] != "assign":
+                continue
+            if st["place"]["l"] == L and st["place"]["p"]:
+                return False          # written through a projection: the variants established earlier may not hold
+            if st["rv"]["k"] in ("ref", "raw", "rawptr") and st["rv"].get("mut") and (st["rv"].get("pl") or {}).get("l") == L:
+                return False
+    variants = {}
+
+    def vname(adt, idx):
+        if adt not in variants:
+            if adt == "std::option::Option":
+                variants[adt] = {0: "None", 1: "Some"}
+            elif adt == "std::result::Result":
+                variants[adt] = {0: "Ok", 1: "Err"}
+            else:
+                variants[adt] = {}
+        return variants[adt].get(idx)
+
+    def path_of(p):
+        """projection below L -> tuple of variant names, or None when it is not a pure downcast/field-0 chain."""
+        out = []
+        i = 0
+        while i < len(p):
+            e = p[i]
+            if isinstance(e, dict) and "d" in e and i + 1 < len(p) and isinstance(p[i + 1], dict) and p[i + 1].get("f") == 0:
+                out.append(e["n"])
+                i += 2
+            else:
+                return None
+        return tuple(out)
+
+    start = (0, frozenset(), frozenset())
+    seen = {start}
+    work = [start]
+    n = 0
+    while work:
+        bi, fl, kn = work.pop()
+        n += 1
+        if n > 4000:
+            return False
+        b = fn.blocks[bi]
+        if b.get("cleanup"):
+            continue
+        fl = dict(fl)
+        kn = dict(kn)
+        discr = {}
+        for st in b["stmts"]:
+            if st["k"] != "assign":
+                continue
+            if not st["place"]["p"] and st["place"]["l"] in flags and st["rv"]["k"] == "use" and st["rv"]["op"].get("c") == "const":
+                fl[st["place"]["l"]] = st["rv"]["op"].get("int")
+            elif st["rv"]["k"] == "discr" and st["rv"]["pl"]["l"] == L and not st["place"]["p"]:
+                pp = path_of(st["rv"]["pl"]["p"])
+                if pp is not None:
+                    discr[st["place"]["l"]] = (pp, st["rv"].get("adt"))
+            elif not st["place"]["p"] and st["place"]["l"] == L:
+                kn = {}            # re-assigned
+        t2 = b["term"]
+        if t2["k"] == "call" and (t2.get("dest") or {}).get("l") == L:
+            kn = {}
+        if bi == dblock:
+            if ty_mentions_error(_residual_ty(ty, kn), markers):
+                return False
+            continue
+        succs = []
+        if t2["k"] == "switch":
+            op = t2["op"]
+            key = op["pl"]["l"] if op.get("c") in ("copy", "move") and not op["pl"]["p"] else None
+            if key in flags and key in fl:
+                tg = dict((v, x) for v, x in t2["targets"]).get(fl[key], t2["otherwise"])
+                succs = [(tg, fl, kn)]
+            elif key in discr:
+                pp, adt = discr[key]
+                taken = set()
+                for v, x in t2["targets"]:
+                    k2 = dict(kn)
+                    nm = vname(adt, v)
+                    if nm:
+                        k2[pp] = nm
+                    taken.add(v)
+                    succs.append((x, fl, k2))
+                k2 = dict(kn)
+                rest = [nm for i2, nm in variants.get(adt, {}).items() if i2 not in taken]
+                if len(rest) == 1:
+                    k2[pp] = rest[0]
+                succs.append((t2["otherwise"], fl, k2))
+            else:
+                succs = [(x, fl, kn) for _v, x in t2["targets"]] + [(t2["otherwise"], fl, kn)]
+        else:
+            for k in ("t",):
+                if t2.get(k) is not None:
+                    succs.append((t2[k], fl, kn))
+            if t2["k"] == "goto" and t2.get("t") is None:
+                pass
+        for x, f2, k2 in succs:
+            if x is None:
+                continue
+            stt = (x, frozenset(f2.items()), frozenset(k2.items()))
+            if stt not in seen:
+                seen.add(stt)
+                work.append(stt)
+    return True
+
+
 def errdrop_scan(rule, crate, fn_pred, markers, exceptions, what, scope_gone=True):
     """R-ERRDROP: no non-cleanup Drop of an error-typed place, no discarding adaptor.
 
@@ -152,6 +313,10 @@ def errdrop_scan(rule, crate, fn_pred, markers, exceptions, what, scope_gone=Tru
                 if ty_mentions_error(ty, markers) and _param_never_holds_error(crate, fn, t):
                     rule.ok("%s: the dropped %s is a parameter that every caller fills with a payload-free constant "
                             "(an error *code* to use, not an error that happened)" % (fn.path, ty), fn, t.get("line"))
+                    continue
+                if ty_mentions_error(ty, markers) and _drop_cannot_hold_error(crate, fn, bi, markers):
+                    rule.ok("%s: the %s dropped here is, on every path that reaches the drop with its flag set, in a "
+                            "variant that holds no error (the error-carrying variants were moved out)" % (fn.path, ty), fn, t.get("line"))
                     continue
                 if ty_mentions_error(ty, markers):
                     # keyed by the error type the dropped value can hold (a Result<T, E> and a bare E are the same
